@@ -7,6 +7,7 @@ LEVEL = ("bounded symbolic execution of the repository's own functions on z3 pro
          "explored path: within the stated instantiation family and integer ranges the solver's verdict covers every value of "
          "the symbolic inputs; counterexamples are replayed on the unpatched code before being reported. %s")
 CHECKS = {
+ "C09": ("§3 C09", "symbolic: arguments of one call (dictionaries over all ids incl. sub-proposition and top ids), thresholds/signs/boxes; cache key (hash and equality) of two configurators with independent symbolic item boxes; instantiated: models, operations", "M4, M5, M6, M7, M10; one inductive step from the freshly built object; open known finding assume-mutates-named-subproposition excluded as a class"),
  "C18": ("§3 C18", "symbolic: thresholds/signs of old and added rules; instantiated: configurators, addition sequences (<=3), id-clash selector; polyhedron/default priorities/select on a representative per path", "M4, M5, M6, M7; thin solver share (equalities between parameter terms), stated"),
  "C10": ("§3 C10", "symbolic: boxes of reused leaf ids, thresholds/signs of reused compound ids, hash arguments; instantiated: adversarial skeletons", "M4 hash shadow with explicit CPython int-hash model; M5 decided tokens (hash injective on integers) for errors(); CPython str/tuple hash collisions outside"),
  "C16": ("§3 C16", "symbolic: thresholds, explicit signs, integer-leaf boxes, leaf values (dict-level round trip); json.dumps/loads leg on concrete representatives; instantiated: skeletons, configurators, str vs variable leaves", "M4, M5, M6, M9; open known findings excluded as classes"),
